@@ -4,6 +4,7 @@ CONSTANTS
   MaxGen = 4
   Protos = {"chainsync", "blockfetch", "txsubmission"}
   Times = {"free", "early", "mid", "late"}
+  FreeAll = TRUE
   Designs = {"extracted", "repaired"}
   Emit = TRUE
 SPECIFICATION Spec
